@@ -4,7 +4,7 @@ from __future__ import annotations
 from ..engine import monitors, suite
 from ..runner import Env, Outcome
 
-THEOREMS = ["C02_route_count", "C02_never_unaccepted", "C02_target_only", "C02_waiter_gets_result",
+THEOREMS = ["C02_engine_source_shape", "C02_route_count", "C02_never_unaccepted", "C02_target_only", "C02_waiter_gets_result",
             "C02_unhandled_iff", "C02_outputs_requeued", "C02_queue_command_buffers_once",
             # whole runs of the runner LTS: tick conservation (no loss, no duplication up to the reducer)
             "C02_ticks_conserved", "C02_ticks_conserved_from", "C02_event_reduced_at_most_once_per_creation",
